@@ -113,11 +113,16 @@ def replay_cover(ctx, g, inits, exe, variant, hargs, keyfn, walks=(0, 0), line=s
         # a crash inside a loop chain hides the rest of the chain: re-run the remainder until the chain is consumed
         failed = {}
         fails_all = []
+        stopped = None
         todo = list(zip(scripts, texts))
         rounds = 0
         while todo and rounds < 50:
             rounds += 1
-            fails, _, ns, nt = run_scripts(exe, hargs, [t for _, t in todo], ctx.rundir, jobs=jobs, env=env, tag="%s-L%d" % (variant, lp.level))
+            try:
+                fails, _, ns, nt = run_scripts(exe, hargs, [t for _, t in todo], ctx.rundir, jobs=jobs, env=env, tag="%s-L%d" % (variant, lp.level))
+            except Broken as stop:       # hang budget exhausted: report what was seen, then end the check
+                stopped = stop
+                break
             nscripts += ns
             nsteps += nt
             again = []
@@ -164,6 +169,8 @@ def replay_cover(ctx, g, inits, exe, variant, hargs, keyfn, walks=(0, 0), line=s
             seen_keys.add(key)
             ctx.report(key, what, {"variant": variant, "harness_args": hargs, "script": s.describe(g, f.step), "failure": repr(f),
                                    "detail": f.detail, "script_text": s.text(g, line)})
+        if stopped is not None:
+            raise stopped
         lp.feed(failed)
         if len(ctx.violations) > max_violation_keys:
             ctx.notes.append("stopped %s after %d distinct violation keys" % (variant, len(ctx.violations)))
